@@ -1,3 +1,5 @@
+//go:build go1.25
+
 package c17
 
 import (
@@ -13,7 +15,6 @@ import (
 
 	quic "github.com/refraction-networking/uquic"
 	"github.com/refraction-networking/uquic/verif/sim"
-	"github.com/refraction-networking/uquic/verif/vf"
 )
 
 const ms = time.Millisecond
@@ -56,6 +57,7 @@ type endpoint struct {
 		SetReadDeadline(time.Time) error
 	}
 	xferBytes int
+	neverEnded bool
 	pendingAtCause []string
 }
 
@@ -68,6 +70,7 @@ type result struct {
 	tArm     time.Duration
 	tCause   time.Duration // when the cause was triggered (local action / injection / blackout start)
 	causeAt  time.Duration // time the local action returned
+	closer   string        // endpoint that called CloseWithError ("" if none)
 	forgeRec int           // log index of the forged datagram (-1)
 	forgeCode uint64
 	forgeName string
@@ -504,7 +507,6 @@ func alpn(c *Case, client bool) []string {
 // runCase executes the scenario inside the bubble.
 func runCase(c Case, res *result) {
 	rtt := time.Duration(c.RTTms) * ms
-	neg := time.Duration(c.negIdle()) * ms
 	hsIdle := time.Duration(c.HSIdleMs) * ms
 	res.c, res.rtt, res.forgeRec = c, rtt, -1
 	hs := c.Phase == "handshake"
@@ -612,6 +614,7 @@ func runCase(c Case, res *result) {
 		}
 		for _, e := range []*endpoint{res.C, res.S} {
 			if e.conn != nil && !e.hasEnded() {
+				e.neverEnded = true
 				e.conn.CloseWithError(0, "teardown")
 			}
 		}
@@ -708,6 +711,7 @@ func runCase(c Case, res *result) {
 				}
 			}
 			res.tCause = w.Router.Now()
+			res.closer = "c"
 			conn.CloseWithError(quic.ApplicationErrorCode(c.Code), c.Reason)
 			res.causeAt = w.Router.Now()
 		}
@@ -775,9 +779,10 @@ func runCase(c Case, res *result) {
 
 	// ---- wait for both sides to end
 	ptoUp := 3*rtt + 50*ms
-	horizon := res.tCause + 3*max(neg, 3*ptoUp) + 2*time.Second
+	eff := time.Duration(max(c.effIdle("c"), c.effIdle("s"))) * ms
+	horizon := res.tCause + 3*max(eff, 3*ptoUp) + 2*time.Second
 	if c.Phase == "edge" {
-		horizon = 2*hsIdle + 3*max(neg, 3*ptoUp) + 2*time.Second
+		horizon = 2*hsIdle + 3*max(eff, 3*ptoUp) + 2*time.Second
 	}
 	if c.Cause == "reset" {
 		// the server lost its state; the client notices when it next sends something of substance
